@@ -660,3 +660,198 @@ Proof.
   destruct (elems (dec_items s)) eqn:E; [discriminate|].
   destruct (ends_with_tok (dec_items s)); [left; eexists; split; reflexivity|right; split; reflexivity].
 Qed.
+
+(* ================= repeat notation (partial): the expansion, when it is accepted, has the same size ================= *)
+(* without an opening parenthesis no repeat can match: a match's text is exactly the text it consumed *)
+Lemma token_text ci rc uc s k txt rest :
+  token_at ci rc uc s = Some (E k txt, rest) -> mem 40 s = false -> s = txt ++ rest.
+Proof.
+  unfold token_at. destruct s as [|c t]; [discriminate|]. intros H Hp.
+  assert (Hpt : mem 40 t = false).
+  { unfold mem in *. cbn [existsb] in Hp. apply orb_false_iff in Hp. tauto. }
+  revert H.
+  destruct (mem (up ci c) [43; 45; 83]).
+  { intros H. injection H as <- <- <-. reflexivity. }
+  destruct ((up ci c =? 68) && _).
+  { intros H. injection H as <- <- <-. destruct t; reflexivity. }
+  destruct ((up ci c =? 67) && _).
+  { intros H. injection H as <- <- <-. destruct t; reflexivity. }
+  destruct (mem (up ci c) [36; 44; 47; 42; 66]).
+  { intros H. injection H as <- <- <-. reflexivity. }
+  destruct (mem (up ci c) [86; 46]).
+  { intros H. injection H as <- <- <-. reflexivity. }
+  destruct (if mem (up ci c) rc then repeat_tail t else None) as [[n r]|] eqn:ER.
+  { exfalso. destruct (mem (up ci c) rc); [|discriminate].
+    destruct (repeat_tail_some _ _ _ ER) as (ds & -> & _).
+    unfold mem in Hpt. cbn [existsb] in Hpt. discriminate. }
+  destruct (mem (up ci c) uc); [|discriminate].
+  pose proof (span_app (fun d => mem (up ci d) uc) t) as Happ.
+  destruct (span (fun d => mem (up ci d) uc) t) as [run r]. simpl in Happ.
+  intros H. injection H as <- <- <-. cbn [app]. now rewrite <- Happ.
+Qed.
+
+Lemma mem_app_false c a b : mem c (a ++ b) = false -> mem c a = false /\ mem c b = false.
+Proof. unfold mem. rewrite existsb_app. apply orb_false_iff. Qed.
+
+Lemma flat_plain f : forall s, (length s <= f)%nat -> mem 40 s = false -> flat (dscan f s) = map sp_upper s.
+Proof.
+  induction f as [|f IH]; intros s Hlen Hp.
+  { destruct s; [reflexivity|simpl in Hlen; lia]. }
+  destruct s as [|c t]; [reflexivity|]. unfold dscan. cbn [scan].
+  destruct (token_at false cls cls (c :: t)) as [[[k txt] rest]|] eqn:E.
+  - rewrite flat_cons. cbn [item_text]. pose proof (token_text _ _ _ _ _ _ _ E Hp) as Hs.
+    pose proof (token_at_shorter _ _ _ _ _ _ E) as Hsh.
+    rewrite Hs. rewrite map_app. f_equal. apply IH.
+    + clear - Hlen Hsh. simpl in *. lia.
+    + rewrite Hs in Hp. apply mem_app_false in Hp. tauto.
+  - rewrite flat_cons. cbn [item_text map app]. f_equal. apply IH.
+    + clear - Hlen. simpl in Hlen. lia.
+    + unfold mem in *. cbn [existsb] in Hp. apply orb_false_iff in Hp. tauto.
+Qed.
+
+Lemma upper_idem c : sp_upper (sp_upper c) = sp_upper c.
+Proof.
+  unfold sp_upper. destruct ((97 <=? c) && (c <=? 122)) eqn:R; [|now rewrite R].
+  apply andb_true_iff in R. destruct R as [R1 R2]. apply N.leb_le in R1. apply N.leb_le in R2.
+  destruct ((97 <=? c - 32) && (c - 32 <=? 122)) eqn:R'; [|reflexivity].
+  apply andb_true_iff in R'. destruct R' as [R3 R4]. apply N.leb_le in R3. lia.
+Qed.
+
+Lemma flat_upper l : map sp_upper (flat l) = flat l.
+Proof. unfold flat. rewrite map_map. apply map_ext. intros c. apply upper_idem. Qed.
+
+Lemma incls_not_paren c : incls c = true -> (c =? 40) = false.
+Proof. intros H. mem_split H; reflexivity. Qed.
+
+Lemma cls_no_paren t : forallb incls t = true -> existsb (N.eqb 40) t = false.
+Proof.
+  induction t as [|d r IHr]; [reflexivity|]. cbn [forallb]. intros H.
+  apply andb_true_iff in H. destruct H as [Hd Hr].
+  cbn [existsb]. rewrite N.eqb_sym, (incls_not_paren _ Hd). cbn [orb]. now apply IHr.
+Qed.
+
+Lemma flat_no_paren l : forallb wf_item l = true -> clean l = true -> mem 40 (flat l) = false.
+Proof.
+  induction l as [|i l IH]; intros Hwf Hcl; [reflexivity|].
+  cbn [forallb] in Hwf. unfold clean in Hcl. cbn [forallb] in Hcl.
+  apply andb_true_iff in Hwf. apply andb_true_iff in Hcl.
+  destruct Hwf as [Hwi Hwf]. destruct Hcl as [Hci Hcl].
+  rewrite flat_cons. unfold mem. rewrite existsb_app. fold (mem 40 (flat l)).
+  rewrite (IH Hwf Hcl), orb_false_r.
+  destruct i as [[k t]|c|]; [| |discriminate]; cbn [item_text].
+  - destruct k; cbn [wf_item wf_elt] in Hwi.
+    + cbn [existsb] in Hwi.
+      repeat (apply orb_true_iff in Hwi; destruct Hwi as [Hwi|Hwi]); try discriminate Hwi;
+        unfold list_N_eqb in Hwi; apply andb_true_iff in Hwi; destruct Hwi as [Hl Hv];
+        destruct t as [|c0 [|c1 [|c2 t2]]]; try discriminate Hl; cbn in Hv;
+        repeat (apply andb_true_iff in Hv; destruct Hv as [? Hv]);
+        repeat match goal with H : (_ =? _) = true |- _ => apply N.eqb_eq in H; subst end; reflexivity.
+    + destruct t as [|c0 [|]]; try discriminate. mem_split Hwi; reflexivity.
+    + destruct t as [|c0 [|]]; try discriminate. mem_split Hwi; reflexivity.
+    + rewrite (upper_cls _ Hwi). now apply cls_no_paren.
+  - cbn [clean_item] in Hci. apply orb_true_iff in Hci.
+    destruct Hci as [Hc|Hc]; apply N.eqb_eq in Hc; subst c; reflexivity.
+Qed.
+
+Lemma dec_parse_ok s r : dec_parse s = Some (Ok r) -> ends_with_tok (dec_items s) = true.
+Proof.
+  unfold dec_parse. rewrite dec_normalize_eq. destruct (ends_with_tok (dec_items s)); [reflexivity|discriminate].
+Qed.
+
+(* the expansion of an accepted picture is its own expansion *)
+Lemma expansion_fixed s e r r' : known_bad s = false -> known_bad e = false -> sp_expand s = Some e ->
+  dec_parse s = Some (Ok r) -> dec_parse e = Some (Ok r') -> sp_expand e = Some e.
+Proof.
+  intros Hs He Hexp Hr Hr'.
+  destruct (accepted_facts s Hs (dec_parse_ok _ _ Hr)) as (Hcl & Hexp' & _).
+  destruct (accepted_facts e He (dec_parse_ok _ _ Hr')) as (_ & Hexp'' & _).
+  rewrite Hexp in Hexp'. injection Hexp' as ->.
+  rewrite Hexp''. f_equal. rewrite dec_items_eq at 1.
+  rewrite flat_plain; [apply flat_upper|apply le_n|].
+  apply flat_no_paren; [rewrite dec_items_eq; apply scan_wf|exact Hcl].
+Qed.
+
+Lemma repeat_partial s e r r' : known_bad s = false -> known_bad e = false -> sp_expand s = Some e ->
+  dec_parse s = Some (Ok r) -> dec_parse e = Some (Ok r') -> p_size r' = p_size r /\ sp_parse e = sp_parse s.
+Proof.
+  intros Hs He Hexp Hr Hr'.
+  pose proof (expansion_fixed s e r r' Hs He Hexp Hr Hr') as Hfix.
+  assert (Hsp : sp_parse e = sp_parse s) by (unfold sp_parse; now rewrite Hfix, Hexp).
+  split; [|exact Hsp].
+  destruct (strict s Hs) as [H|(r0 & v & H1 & H2 & H3 & _)]; [rewrite H in Hr; discriminate|].
+  destruct (strict e He) as [H|(r0' & v' & H1' & H2' & H3' & _)]; [rewrite H in Hr'; discriminate|].
+  rewrite Hr in H1. injection H1 as <-. rewrite Hr' in H1'. injection H1' as <-.
+  rewrite Hsp, H2 in H2'. injection H2' as <-. now rewrite H3, H3'.
+Qed.
+
+(* ================= the generator's classification is the specification's (outside the known findings) ================= *)
+Definition st_nc (st : sp_state) : Prop :=
+  match st with Cnt _ _ _ => False | _ => True end.
+
+Lemma sp_run_plain s : forall st e, st_nc st -> mem 40 s = false -> sp_run st s = Some e -> e = map sp_upper s.
+Proof.
+  induction s as [|c t IH]; intros st e Hnc Hp H.
+  { destruct st; cbn in H; try discriminate; now injection H as <-. }
+  assert (Hc : (c =? 40) = false /\ mem 40 t = false).
+  { unfold mem in *. cbn [existsb] in Hp. apply orb_false_iff in Hp. rewrite N.eqb_sym. exact Hp. }
+  destruct Hc as [Hc Hpt]. cbn [sp_run] in H. cbv zeta in H. cbn [map].
+  assert (Hfree : (if sp_upper c =? 68 then option_map (cons 68) (sp_run (Pair 66) t)
+                   else if sp_upper c =? 67 then option_map (cons 67) (sp_run (Pair 82) t)
+                   else if sp_single (sp_upper c) then option_map (cons (sp_upper c)) (sp_run (Sym (sp_upper c)) t)
+                   else None) = Some e -> e = sp_upper c :: map sp_upper t).
+  { clear H. intros H.
+    destruct (sp_upper c =? 68) eqn:E68.
+    { apply N.eqb_eq in E68. rewrite E68. destruct (sp_run (Pair 66) t) as [x|] eqn:Ex; [|discriminate].
+      injection H as <-. f_equal. eapply IH; [|exact Hpt|exact Ex]. exact I. }
+    destruct (sp_upper c =? 67) eqn:E67.
+    { apply N.eqb_eq in E67. rewrite E67. destruct (sp_run (Pair 82) t) as [x|] eqn:Ex; [|discriminate].
+      injection H as <-. f_equal. eapply IH; [|exact Hpt|exact Ex]. exact I. }
+    destruct (sp_single (sp_upper c)); [|discriminate].
+    destruct (sp_run (Sym (sp_upper c)) t) as [x|] eqn:Ex; [|discriminate].
+    injection H as <-. f_equal. eapply IH; [|exact Hpt|exact Ex]. exact I. }
+  destruct st as [|v|v n b|x]; [| |contradiction|].
+  - rewrite Hc in H. exact (Hfree H).
+  - rewrite Hc in H. exact (Hfree H).
+  - destruct (sp_upper c =? x) eqn:EX; [|discriminate]. apply N.eqb_eq in EX.
+    destruct (sp_run Idle t) as [y|] eqn:Ey; [|discriminate].
+    injection H as <-. rewrite EX. f_equal. eapply IH; [|exact Hpt|exact Ey]. exact I.
+Qed.
+
+Lemma class_pointwise c : lowtrig c = false -> upper_in_SVP9 c = sp_mem (sp_upper c) [83; 86; 80; 57].
+Proof.
+  intros Hl. unfold lowtrig, mem in Hl. cbn [existsb] in Hl.
+  repeat (apply orb_false_iff in Hl; destruct Hl as [? Hl]).
+  repeat match goal with H : (_ =? _) = false |- _ => apply N.eqb_neq in H end.
+  unfold upper_in_SVP9, mem, sp_mem, sp_upper. cbn [existsb].
+  destruct ((97 <=? c) && (c <=? 122)) eqn:R.
+  - apply andb_true_iff in R. destruct R as [R1 R2]. apply N.leb_le in R1. apply N.leb_le in R2.
+    repeat match goal with |- context [?a =? ?b] => destruct (N.eqb_spec a b); try (exfalso; lia) end; reflexivity.
+  - repeat match goal with |- context [?a =? ?b] => destruct (N.eqb_spec a b); try (exfalso; lia) end; reflexivity.
+Qed.
+
+Lemma class_plain s : nolow s = true -> forallb upper_in_SVP9 s = sp_numeric (map sp_upper s).
+Proof.
+  induction s as [|c t IH]; [reflexivity|]. unfold nolow. cbn [forallb map]. intros H.
+  apply andb_true_iff in H. destruct H as [Hc Ht]. apply negb_true_iff in Hc.
+  unfold sp_numeric in *. cbn [forallb]. rewrite (class_pointwise _ Hc). f_equal. now apply IH.
+Qed.
+
+Lemma forallb_paren s : mem 40 s = true -> forallb upper_in_SVP9 s = false.
+Proof.
+  induction s as [|c t IH]; [discriminate|]. unfold mem. cbn [existsb forallb]. intros H.
+  apply orb_true_iff in H. destruct H as [H|H].
+  - apply N.eqb_eq in H. subst c. reflexivity.
+  - unfold mem in IH. rewrite (IH H). apply andb_false_r.
+Qed.
+
+Lemma gen_class s v : known_bad s = false -> sp_parse s = Some v -> gen_numeric s = numeric v.
+Proof.
+  intros Hkb Hv. destruct (known_bad_false s Hkb) as (_ & _ & Hl & _ & _ & _ & _ & Hrep).
+  unfold kb_repnum in Hrep. rewrite Hv in Hrep.
+  unfold sp_parse in Hv. destruct (sp_expand s) as [e|] eqn:He; [|discriminate]. injection Hv as <-.
+  destruct s as [|c t]; [discriminate|]. unfold sp_expand in He.
+  unfold gen_numeric. destruct (mem 40 (c :: t)) eqn:P.
+  - rewrite andb_true_r in Hrep. rewrite Hrep. now apply forallb_paren.
+  - pose proof (sp_run_plain _ Idle _ I P He) as ->. cbn [sp_summary numeric].
+    apply class_plain. apply existsb_false_forallb. exact Hl.
+Qed.
